@@ -114,7 +114,7 @@ KINDS = (F_NONE,) + SOCKET_FAULTS + REPLY_FAULTS   # index 0 = no fault
 
 
 def run_history(stack, calls, plan, cut, nservers=1, default_noreply=True, recv_size=4096, client_kw=None,
-                after_call=None, expect_base_exc=None, eintr_at=None, check_leftover=True):
+                after_call=None, expect_base_exc=None, eintr_at=None, check_leftover=True, net_opts=None):
     """calls: list of (op name, nr) with nr in (None, True, False).  Returns ("viol", msg) or ("ok", label, net, client).
 
     Oracle after every call (C01): no recv returned bytes owned by another call, no recv with nothing in flight,
@@ -124,6 +124,8 @@ def run_history(stack, calls, plan, cut, nservers=1, default_noreply=True, recv_
     servers, sclock = fresh_servers(nservers)
     net = NetSim(servers, plan, cuts=(cut,) if cut else ())
     net.eintr_at = eintr_at
+    for name, val in (net_opts or {}).items():
+        setattr(net, name, val)
     _base.RECV_SIZE = recv_size
     kw = dict(client_kw or {})
     kw.setdefault("default_noreply", default_noreply)
